@@ -470,8 +470,9 @@ fn emit_fn(cx: &mut Ctx, specs: &mut Specs, em: &mut Emitter, ex: &Extract, file
     let base_name = ex.path.rsplit("::").next().unwrap().to_string();
     let mut f = fd.f.clone();
     // H1: calls of helper functions an edit split off (not in the pinned tree's list of function names) are replaced by their bodies
-    if fd.tr.is_none() && !cx.baseline_fns.is_empty() {
-        let head = fd.im.as_ref().map(|im| type_head(&im.self_ty));
+    if !cx.baseline_fns.is_empty() {
+        // (in a default method of a trait only free functions of the file are candidates)
+        let head = if fd.tr.is_some() { None } else { fd.im.as_ref().map(|im| type_head(&im.self_ty)) };
         let helpers = rewrite::new_helpers(file, head.as_deref(), &cx.baseline_fns);
         rewrite::inline_new_helpers(&mut f.block, &helpers, cx);
     }
